@@ -350,6 +350,15 @@ def gapList (l : Location) : R (List Blk) :=
       let gs := gapPairs bs
       if gs.all (fun g => decide (g.1 ≤ g.2)) then pure gs else throw .InvalidPosition
 
+/-- `gap_list()` as observed: every gap is a SingleInterval on the strand of the location -/
+def gapListP (a : PLoc) : R (List (Strand × Blk)) := do
+  let gs ← gapList a.1
+  let st := match a.1 with
+    | .single _ s => s
+    | .compound l => l.strand
+    | .empty => Strand.plus
+  pure (gs.map (fun g => (st, g)))
+
 /-- `gaps_location()` -/
 def gapsLocationP (a : PLoc) : R PLoc :=
   match a.1 with
